@@ -327,6 +327,8 @@ class Ev:
             v = v.val
         if hasattr(v, "sym_getattr"):
             return v.sym_getattr(self, name, node, mod)
+        if isinstance(v, Obj) and name == "_asdict" and "__fields__" in v.attrs:
+            return BoundLib("namedtuple._asdict", v)
         if isinstance(v, Obj):
             return self.obj_attr(v, name, node, mod)
         if isinstance(v, Opaque):
@@ -382,7 +384,7 @@ class Ev:
             return Tup([sp.Symbol(f"dim{i}", positive=True, integer=True) for i in range(v.batch)] + [sp.Integer(x) for x in v.shape])
         if isinstance(v, ArrV) and name == "T" and len(v.shape) == 2 and v.batch == 0:
             return ArrV(0, v.shape[::-1], v.fill, {(j, i): x for (i, j), x in v.cells.items()})
-        if isinstance(v, DictV) and name in ("keys", "values", "items", "get"):
+        if isinstance(v, DictV) and name in ("keys", "values", "items", "get", "update", "copy", "pop", "setdefault"):
             return BoundLib(f"dict.{name}", v)
         raise self.err(f"unresolved attribute .{name} on {type(v).__name__} {v!r}", node, mod)
 
@@ -883,6 +885,8 @@ class Ev:
             if isinstance(idx, SliceV):
                 lo, hi, st = (int(x) if x is not None else None for x in (idx.lo, idx.hi, idx.step))
                 return base[lo:hi:st]
+        if isinstance(base, Obj) and "__fields__" in base.attrs and is_sym(idx) and idx.is_Integer:
+            return base.attrs[base.attrs["__fields__"][int(idx)]]
         if isinstance(base, Obj):
             hook = self.seeds.get((base.cls, "__getitem__"))
             if hook:
@@ -1298,7 +1302,7 @@ class Ev:
         fn = LIB.get(name) or LIB.get(short)
         if fn is None:
             raise self.err(f"call to {name} has no transfer function (T-LIB)", n, mod)
-        bad = set(kwargs) - set(getattr(fn, "kw", ()))
+        bad = set(kwargs) - set(getattr(fn, "kw", ()) or ()) if getattr(fn, "kw", ()) is not None else set()
         if bad:
             raise self.err(f"call to {name} with keyword(s) {sorted(bad)} the transfer function does not model", n, mod)
         return fn(self, args, kwargs, n, mod)
@@ -1826,6 +1830,7 @@ def lib_str_method(name):
 
 for _m in STR_METHODS:
     LIB[f"str.{_m}"] = lib_str_method(_m)
+    LIB[f"str.{_m}"].kw = None
 
 
 def lib_list_append(ev, a, k, n, mod):
@@ -1922,3 +1927,41 @@ def lib_np_sum(ev, a, k, n, mod):
 
 lib_np_sum.kw = {"axis", "keepdims"}
 LIB["numpy.sum"] = lib_np_sum
+
+
+def lib_dict_update(ev, a, k, n, mod):
+    d = a[0]
+    if len(a) > 1:
+        other = a[1]
+        if not isinstance(other, DictV):
+            raise ev.err("dict.update with a non-dict", n, mod)
+        d.d.update(other.d)
+    for kk, vv in k.items():
+        d.d[kk] = vv
+    return None
+
+
+def lib_dict_copy(ev, a, k, n, mod):
+    out = DictV()
+    out.d.update(a[0].d)
+    return out
+
+
+def lib_asdict(ev, a, k, n, mod):
+    o = a[0]
+    return DictV({f: o.attrs[f] for f in o.attrs["__fields__"]})
+
+
+def lib_dict_pop(ev, a, k, n, mod):
+    d, key = a[0], a[1]
+    if key in d.d:
+        v = d.d[key]
+        del d.d.m[hkey(key)]
+        return v
+    if len(a) > 2:
+        return a[2]
+    raise RaisedV("KeyError")
+
+
+LIB.update({"dict.update": lib_dict_update, "dict.copy": lib_dict_copy, "namedtuple._asdict": lib_asdict, "dict.pop": lib_dict_pop})
+lib_dict_update.kw = None
